@@ -35,6 +35,13 @@ func (x *Exec) localEnv(st *State, fr *frame, env *Env) {
 	for _, b := range fr.fn.Blocks {
 		for _, ins := range b.Instrs {
 			switch in := ins.(type) {
+			case *ssa.Range:
+				if pv, ok := st.regs[in].(Ptr); ok && pv.Loc != nil {
+					if r, ok := st.mem[pv.Loc].(Rec); ok && len(r.F) == 2 {
+						env.vars["rangepos"] = r.F[1]
+						env.vars["rangestr"] = r.F[0]
+					}
+				}
 			case *ssa.DebugRef:
 				if obj, ok := in.Object().(*types.Var); ok {
 					if _, have := env.vars[obj.Name()]; have {
@@ -76,6 +83,15 @@ func (x *Exec) topEnv(st *State, where string) *Env {
 		env.typs[n] = x.argT[n]
 	}
 	for n, v := range st.ghost {
+		env.vars[n] = v
+	}
+	if x.con != nil {
+		for _, c := range x.con.Captures {
+			// a capture that did not happen on this path denotes the empty slice
+			env.vars[c.Name] = Slice{Off: "0", Len: "0", Cap: "0"}
+		}
+	}
+	for n, v := range st.caps {
 		env.vars[n] = v
 	}
 	env.cur, env.old = st, x.entry
@@ -226,6 +242,16 @@ func (x *Exec) havocLoop(st *State, fr *frame, li *loopInfo) {
 			x.havocIter(st, it, is)
 		}
 	}
+	for nx := range eff.nexts {
+		if pv, ok := st.regs[nx].(Ptr); ok && pv.Loc != nil {
+			if r, ok := st.mem[pv.Loc].(Rec); ok && len(r.F) == 2 {
+				str := r.F[0].(Sc).T
+				p := s.declare(s.fresh("rangepos"), "Int")
+				st.assume(fmt.Sprintf("(and (<= 0 %s) (<= %s (strlen %s)))", p, p, str))
+				st.mem[pv.Loc] = Rec{F: []Val{r.F[0], scInt(p)}}
+			}
+		}
+	}
 }
 
 func phiName(p *ssa.Phi) string {
@@ -236,6 +262,7 @@ func phiName(p *ssa.Phi) string {
 }
 
 type effects struct {
+	nexts  map[ssa.Value]bool // string-range iterators advanced
 	comps  map[string]bool
 	types  map[string]bool // type keys of objects written through non-local pointers; "[]T" for slice elements
 	allocs map[*ssa.Alloc]bool
@@ -262,6 +289,13 @@ func (x *Exec) blockEffects(b *ssa.BasicBlock, eff *effects, depth int) {
 	s := x.s
 	for _, ins := range b.Instrs {
 		switch in := ins.(type) {
+		case *ssa.Next:
+			if in.IsString {
+				if eff.nexts == nil {
+					eff.nexts = map[ssa.Value]bool{}
+				}
+				eff.nexts[in.Iter] = true
+			}
 		case *ssa.Store:
 			root := rootOf(in.Addr)
 			if a, ok := root.(*ssa.Alloc); ok {
